@@ -224,18 +224,26 @@ Definition get_attr_chain (qn : str) (ns : option (option str)) (ch : list ndata
   | d :: _ => let '(n, ns') := lookup_key qn ns ch in find_index (attr_match n ns' ch) (d_attrs d)
   end.
 
-(* Attribute.__eq__.  The unchanged code compares self.prefix with rhs.NAME
-   (quirk = true); the flag is read from the implementation by the harness so
-   that the model follows the code if this is ever repaired. *)
-Definition attr_eq (quirk : bool) (e x : attr) : bool :=
-  (if quirk then ostr_eqb (a_prefix e) (Some (a_name x)) else ostr_eqb (a_prefix e) (a_prefix x))
-  && str_eqb (a_name e) (a_name x).
+(* How Element.unset / Element.remove(attribute) find the attribute to drop.  The
+   unchanged code calls list.remove, i.e. goes by Attribute.__eq__, which compares
+   self.prefix with rhs.NAME (AQuirk).  The harness reads the mode from the
+   implementation, so that the model follows the code if this is repaired either
+   by correcting __eq__ (AEq: prefix with prefix) or by removing the very
+   object (AId). *)
+Inductive amode := AQuirk | AEq | AId.
+
+Definition attr_eq (m : amode) (e x : attr) : bool :=
+  match m with
+  | AQuirk => ostr_eqb (a_prefix e) (Some (a_name x)) && str_eqb (a_name e) (a_name x)
+  | AEq => ostr_eqb (a_prefix e) (a_prefix x) && str_eqb (a_name e) (a_name x)
+  | AId => false
+  end.
 
 (* self.attributes.remove(attrs[k]): first element that IS it or == it *)
-Definition attrs_remove (quirk : bool) (k : nat) (l : list attr) : list attr :=
+Definition attrs_remove (m : amode) (k : nat) (l : list attr) : list attr :=
   match nth_error l k with
   | None => l
-  | Some x => remove_first_at (fun pos e => Nat.eqb pos k || attr_eq quirk e x) 0 l
+  | Some x => remove_first_at (fun pos e => Nat.eqb pos k || attr_eq m e x) 0 l
   end.
 
 Fixpoint set_value_at (k : nat) (v : str) (l : list attr) : list attr :=
@@ -253,7 +261,7 @@ Definition d_set (qn v : str) (ch : list ndata) (d : ndata) : ndata :=
   | None => dw_attrs d (d_attrs d ++ [mk_attr qn v])
   | Some k => dw_attrs d (set_value_at k v (d_attrs d))
   end.
-Definition d_unset (quirk : bool) (qn : str) (ch : list ndata) (d : ndata) : ndata :=
+Definition d_unset (quirk : amode) (qn : str) (ch : list ndata) (d : ndata) : ndata :=
   match get_attr_chain qn None ch with
   | None => d                        (* attributes.remove(None) raises, swallowed *)
   | Some k => dw_attrs d (attrs_remove quirk k (d_attrs d))
@@ -564,7 +572,7 @@ Definition m_children_at (s : store) (x : id) (path : str) : result :=
 
 Definition opt_list {A} (o : option A) : list A := match o with Some x => [x] | None => [] end.
 
-Definition step (quirk : bool) (s : store) (o : op) : store * result :=
+Definition step (quirk : amode) (s : store) (o : op) : store * result :=
   match o with
   | ONew qn ns =>
     let r := s_next s in
@@ -594,7 +602,7 @@ Definition step (quirk : bool) (s : store) (o : op) : store * result :=
   | ONamespace x => (s, RNs (ns_uri_chain (chain_of s x)))
   end.
 
-Definition run (quirk : bool) (s : store) (h : list op) : store :=
+Definition run (quirk : amode) (s : store) (h : list op) : store :=
   fold_left (fun s' o => fst (step quirk s' o)) h s.
 
 (* ------------------------------------------------------------------ *)
@@ -1023,7 +1031,7 @@ Fixpoint plookup (l : list (id * str)) (i : id) : option str :=
   end.
 
 Record ccase := mkCase {
-  k_quirk : bool;                      (* Attribute.__eq__ as probed *)
+  k_quirk : amode;                     (* how attributes are removed, as probed *)
   k_setup : list op;                   (* run first *)
   k_base : view;                       (* the harness' picture after the setup *)
   k_steps : list (op * obs)
@@ -1043,7 +1051,7 @@ Definition view_matches_store (s : store) (v : view) (o : obs) : bool :=
                     | None => false
                     end) (o_roots o).
 
-Fixpoint agrees_from (q : bool) (s : store) (v : view) (steps : list (op * obs)) : bool :=
+Fixpoint agrees_from (q : amode) (s : store) (v : view) (steps : list (op * obs)) : bool :=
   match steps with
   | [] => true
   | (o, ob) :: rest =>
